@@ -64,6 +64,10 @@ TEXT = {
  'C20': ('canonicalize is verified (with the assumed std contract of sort_by and the comparator contracts of C16) to leave every other field unchanged, to permute params (multiset equality) and to leave them sorted under the chosen comparator; a lemma proves that a key with distinct, '
          'non-typed, non-zero extra labels then encodes with strictly ascending map keys under Label order (= bytewise order of the encoded keys, C16). Length-first ordering: sortedness of params is proved, the ascending-keys lemma is proved for the lexicographic order only. '
          'Label 0 is a KNOWN FINDING.', '4 C20'),
+ 'C08': ('Header::from_cbor_value(_nested) is verified against r is Ok <=> hdr_ok(value, depth), a declarative predicate written from RFC 8152 3.1 (map; labels int-in-i64 or text, pairwise distinct; alg registered/private/text; crit non-empty array of registered-int-or-text; '
+         'content type registered CoAP format or non-empty text with exactly one \'/\' and no surrounding whitespace; kid/IV/Partial IV non-empty bstr, never both IVs; counter signature one COSE_Signature or a non-empty array of them, recursively, with the nesting limit), '
+         'and against the result relation hdr_res (every typed field equals the value under its label, absent -> None/empty, all other pairs kept unchanged in wire order, counter signatures and their protected headers by the same relations at every level). '
+         'Everything is a function of the ciborium Value, i.e. of the data model. trim()/matches() are uninterpreted (trimmed(s) == s, count_char(s, \'/\') == 1 define the two text rules).', '4 C08'),
 }
 checks = []
 for p in props:
